@@ -255,7 +255,11 @@ class Tensor:
     def numpy(self):
         a = self.arr
         if a.dtype == object:
-            return _concretize(a, self._dtype)
+            try:
+                return _concretize(a, self._dtype)
+            except S.Concretization:
+                # symbolic content: the numpy view of a symbolic tensor is its object array
+                return a[()] if a.ndim == 0 else a
         if a.ndim == 0:
             return a[()]
         return a
